@@ -2,7 +2,7 @@
    identities get different names (Spec.must_differ) and the model gives them the same name,
    there is a collision of truncated digests of two different texts (at least 11 characters). *)
 From Coq Require Import List NArith Arith Bool Lia.
-From Verif.C37 Require Import Model Spec Proofs Families.
+From Verif.C37 Require Import Model Spec Proofs Families More.
 Import ListNotations.
 
 (* ---------- reflexivity of the boolean equalities ---------- *)
@@ -12,7 +12,7 @@ Lemma pids_eqb_refl : forall l, pids_eqb l l = true.
 Proof. induction l; simpl; [reflexivity|]. rewrite pid_eqb_refl, IHl. reflexivity. Qed.
 Lemma ident_eqb_refl : forall a, ident_eqb a a = true.
 Proof.
-  destruct a; simpl; rewrite ?beq_refl, ?Nat.eqb_refl, ?eqb_reflx, ?pid_eqb_refl, ?pids_eqb_refl, ?N.eqb_refl; try reflexivity.
+  destruct a; simpl; rewrite ?beq_refl, ?Nat.eqb_refl, ?eqb_reflx, ?pid_eqb_refl, ?pids_eqb_refl, ?N.eqb_refl; try reflexivity;
   destruct src; simpl; rewrite ?beq_refl; reflexivity.
 Qed.
 
@@ -102,8 +102,8 @@ Qed.
 
 (* ---------- chains built by GetLengthLimitedID: a common view ---------- *)
 
-Definition strong_collision (H256 H224 H3 : bytes -> bytes) : Prop :=
-  exists k, 11 <= k /\ (trunc_collision H256 k \/ trunc_collision H224 k \/ trunc_collision H3 k).
+Definition strong_collision (H256 H224 H3 H1 : bytes -> bytes) : Prop :=
+  exists k, 11 <= k /\ (trunc_collision H256 k \/ trunc_collision H224 k \/ trunc_collision H3 k \/ trunc_collision H1 k).
 
 (* prefix, suffix of the identities that go through GetLengthLimitedID with a chain limit *)
 Definition chain_parts (i : ident) : option (bytes * bytes * bool) :=
@@ -122,12 +122,12 @@ Proof.
   intros p E. apply existsb_exists in E. destruct E as [q [I B]]. apply beq_eq in B. subst. exact I.
 Qed.
 
-Lemma chain_parts_spec : forall clamp H256 H224 H3 i p s nft,
+Lemma chain_parts_spec : forall clamp H256 H224 H3 H1 i p s nft,
   chain_parts i = Some (p, s, nft) -> in_domain i = true ->
-  model_name clamp H256 H224 H3 i = gllid clamp H256 p s (max_chain nft) /\
+  model_name clamp H256 H224 H3 H1 i = gllid clamp H256 p s (max_chain nft) /\
   In p chain_prefixes /\ s <> [] /\ length p <= 10.
 Proof.
-  intros clamp H256 H224 H3 i p s nft C D. destruct i; simpl in C; inversion C; subst; simpl in D; simpl.
+  intros clamp H256 H224 H3 H1 i p s nft C D. destruct i; simpl in C; inversion C; subst; simpl in D; simpl.
   - split; [reflexivity|]. split; [apply policy_pfx_in|]. split; [apply policy_text_nonempty|]. destruct inbound; simpl; lia.
   - split; [reflexivity|]. split; [apply profile_pfx_in|]. split; [apply nonempty_ne; exact D|]. destruct inbound; simpl; lia.
   - apply andb_true_iff in D. destruct D as [D1 D2]. apply endpoint_in in D1.
@@ -175,10 +175,11 @@ Qed.
 
 Section Meets.
   Variable clamp : bool.
-  Variables H256 H224 H3 : bytes -> bytes.
+  Variables H256 H224 H3 H1 : bytes -> bytes.
   Hypothesis HL224 : forall x, length (H224 x) = 38.
-  Notation name := (model_name clamp H256 H224 H3).
-  Notation coll := (strong_collision H256 H224 H3).
+  Hypothesis HC224 : forall x, has colon (H224 x) = false.
+  Notation name := (model_name clamp H256 H224 H3 H1).
+  Notation coll := (strong_collision H256 H224 H3 H1).
 
   Lemma chain_chain : forall a b pa sa pb sb nft n,
     chain_parts a = Some (pa, sa, nft) -> chain_parts b = Some (pb, sb, nft) ->
@@ -186,8 +187,8 @@ Section Meets.
     name a = Some n -> name b = Some n -> a = b \/ coll.
   Proof.
     intros a b pa sa pb sb nft n Ca Cb Da Db Ga Gb.
-    destruct (chain_parts_spec clamp H256 H224 H3 a _ _ _ Ca Da) as [Ma [Ia [Na La]]].
-    destruct (chain_parts_spec clamp H256 H224 H3 b _ _ _ Cb Db) as [Mb [Ib [Nb Lb]]].
+    destruct (chain_parts_spec clamp H256 H224 H3 H1 a _ _ _ Ca Da) as [Ma [Ia [Na La]]].
+    destruct (chain_parts_spec clamp H256 H224 H3 H1 b _ _ _ Cb Db) as [Mb [Ib [Nb Lb]]].
     rewrite Ma in Ga. rewrite Mb in Gb.
     destruct (bytes_dec pa pb) as [E|NE].
     - subst pb. destruct (gllid_same_prefix _ _ _ _ _ _ _ Na Nb Ga Gb) as [E|C].
@@ -201,7 +202,7 @@ Section Meets.
     name a = Some n -> n <> group_chain H3 i sel ps.
   Proof.
     intros a p s nft i sel ps n Ca Da Ga.
-    destruct (chain_parts_spec clamp H256 H224 H3 a _ _ _ Ca Da) as [Ma [Ia _]]. rewrite Ma in Ga.
+    destruct (chain_parts_spec clamp H256 H224 H3 H1 a _ _ _ Ca Da) as [Ma [Ia _]]. rewrite Ma in Ga.
     eapply group_vs_gllid_disjoint; eauto. eapply not_group_pfx; eauto.
   Qed.
 
@@ -215,7 +216,7 @@ Section Meets.
     apply andb_true_iff in Db. destruct Db as [Sb Vb]. apply negb_true_iff in Sb.
     apply group_chain_injective in E. destruct E as [Eij [C|C]].
     - subst j. apply group_content_injective in C; try assumption. destruct C; subst. left. reflexivity.
-    - right. exists 20. split; [lia|]. right. right. exact C.
+    - right. exists 20. split; [lia|]. right. right. left. exact C.
   Qed.
 
   Lemma raw_raw : forall p s max s' n,
@@ -248,6 +249,42 @@ Section Meets.
       apply main_set_hashed_injective in E; try assumption. destruct E as [V [T [C|C]]].
       + subst. left. reflexivity.
       + right. exists (24 - length t). split; [lia|]. right. left. exact C.
+  Qed.
+
+
+  Lemma nft_nft : forall v v' a b,
+    in_domain (IdNftSet v a) = true -> in_domain (IdNftSet v' b) = true ->
+    nft_set_name v (set_id H224 a) = nft_set_name v' (set_id H224 b) ->
+    IdNftSet v a = IdNftSet v' b \/ coll.
+  Proof.
+    intros v v' a b Da Db E. cbn [in_domain] in Da, Db.
+    destruct a as [x|t c], b as [y|t' c']; cbn [set_id] in E.
+    - apply andb_true_iff in Da. destruct Da as [La Ca]. apply andb_true_iff in Db. destruct Db as [Lb Cb].
+      apply Nat.leb_le in La. apply Nat.leb_le in Lb. apply negb_true_iff in Ca. apply negb_true_iff in Cb.
+      apply nft_set_injective in E. destruct E as [V [E|[L _]]]; [|lia].
+      rewrite (legalize_id x Ca), (legalize_id y Cb) in E. subst. left. reflexivity.
+    - exfalso. apply andb_true_iff in Da. destruct Da as [La _]. apply Nat.leb_le in La.
+      apply nft_set_injective in E. destruct E as [_ [E|[L _]]]; [|lia].
+      apply (f_equal (@length N)) in E. rewrite !legalize_length in E. unfold make_unique_id in E.
+      rewrite app_length in E. simpl in E. rewrite HL224 in E. lia.
+    - exfalso. apply andb_true_iff in Db. destruct Db as [Lb _]. apply Nat.leb_le in Lb.
+      apply nft_set_injective in E. destruct E as [_ [E|[_ [L _]]]]; [|lia].
+      apply (f_equal (@length N)) in E. rewrite !legalize_length in E. unfold make_unique_id in E.
+      rewrite app_length in E. simpl in E. rewrite HL224 in E. lia.
+    - apply andb_true_iff in Da. destruct Da as [Da La]. apply andb_true_iff in Da. destruct Da as [Ca Sa].
+      apply andb_true_iff in Db. destruct Db as [Db Lb]. apply andb_true_iff in Db. destruct Db as [Cb Sb].
+      apply negb_true_iff in Ca. apply negb_true_iff in Cb. apply negb_true_iff in Sa. apply negb_true_iff in Sb.
+      apply Nat.leb_le in La. apply Nat.leb_le in Lb.
+      apply nft_set_hashed_injective in E; try assumption. destruct E as [V [T [C|C]]].
+      + subst. left. reflexivity.
+      + right. exists (24 - length t). split; [lia|]. right. left. exact C.
+  Qed.
+
+  Lemma nflog_nflog : forall a b n,
+    maybe_hash clamp H256 a = Some n -> maybe_hash clamp H256 b = Some n -> a = b \/ coll.
+  Proof.
+    intros a b n Ga Gb. destruct (nflog_injective _ _ _ _ _ Ga Gb) as [E|[_ [_ [NE E]]]]; [left; exact E|].
+    right. exists 41. split; [lia|]. left. exists a, b. split; assumption.
   Qed.
 
   Theorem apart_mod_hash : forall a b n,
@@ -293,15 +330,45 @@ Section Meets.
       apply make_unique_id_injective in Gb; try assumption. destruct Gb as [T [C|[x [y [NExy E]]]]].
       + subst. exact (AB eq_refl).
       + exists 11. split; [lia|]. right. left. exists x, y. split; [exact NExy|]. rewrite E. reflexivity.
+    - (* nft set / nft set *)
+      simpl in Ga, Gb. injection Ga as Ga. injection Gb as Gb. subst n.
+      destruct (nft_nft _ _ _ _ Da Db (eq_sym Gb)) as [E|C]; [exact (AB E)|exact C].
+    - (* nflog / nflog *)
+      simpl in Ga, Gb. destruct (nflog_nflog _ _ _ Ga Gb) as [E|C]; [subst; exact (AB eq_refl)|exact C].
+    - (* nflog rule / nflog rule *)
+      simpl in Ga, Gb. cbn [in_domain] in Da, Db.
+      repeat (apply andb_true_iff in Da; destruct Da as [Da ?]). repeat (apply andb_true_iff in Db; destruct Db as [Db ?]).
+      repeat match goal with X : N.ltb _ _ = true |- _ => apply N.ltb_lt in X end.
+      destruct (nflog_nflog _ _ _ Ga Gb) as [E|C]; [|exact C].
+      apply nflog_rule_text_injective in E; try assumption; try lia.
+      destruct E as [? [? [? [? ?]]]]. subst. exact (AB eq_refl).
+    - (* veth / veth *)
+      cbn [in_domain] in Da, Db. apply negb_true_iff in Da. apply negb_true_iff in Db.
+      simpl in Ga, Gb. injection Ga as Ga. injection Gb as Gb. subst n.
+      destruct (veth_injective _ _ _ _ _ Db Da Gb) as [[E1 E2]|C]; [subst; exact (AB eq_refl)|].
+      exists 11. split; [lia|]. right. right. right. exact C.
+    - (* VM handle / VM handle *)
+      simpl in Ga, Gb. cbn [in_domain] in Da, Db.
+      repeat (apply andb_true_iff in Da; destruct Da as [Da ?]). repeat (apply andb_true_iff in Db; destruct Db as [Db ?]).
+      repeat match goal with X : negb _ = true |- _ => apply negb_true_iff in X end.
+      repeat match goal with X : (_ <=? _) = true |- _ => apply Nat.leb_le in X end.
+      apply nonempty_ne in Da. apply nonempty_ne in Db.
+      match type of Ga with vm_handle_id _ _ ?n1 ?s1 ?v1 = _ => match type of Gb with vm_handle_id _ _ ?n2 ?s2 ?v2 = _ =>
+        pose proof (vm_handle_injective clamp H256 n1 s1 v1 n2 s2 v2 n) as R end end.
+      repeat match type of R with ?P -> _ => let X := fresh in assert (X : P) by assumption; specialize (R X) end.
+      destruct R as [[E1 [E2 E3]]|[k [Lk C]]].
+      + subst. exact (AB eq_refl).
+      + exists k. split; [exact Lk|]. left. exact C.
   Qed.
 End Meets.
 
 (* ---------- the specification oracle accepts what the model produces ---------- *)
 Section Oracle.
   Variable clamp : bool.
-  Variables H256 H224 H3 : bytes -> bytes.
+  Variables H256 H224 H3 H1 : bytes -> bytes.
   Hypothesis HL224 : forall x, length (H224 x) = 38.
-  Notation name := (model_name clamp H256 H224 H3).
+  Hypothesis HC224 : forall x, has colon (H224 x) = false.
+  Notation name := (model_name clamp H256 H224 H3 H1).
   Definition model_obs (i : ident) : obs := {| o_id := i; o_name := name i; o_again := name i |}.
 
   Lemma model_fits : forall i n m, name i = Some n -> limit i = Some m -> length n <= m.
@@ -314,9 +381,14 @@ Section Oracle.
     - inversion G. apply group_chain_fits.
     - inversion G. apply main_set_fits.
     - inversion G. apply temp_set_fits.
+    - inversion G. pose proof (nft_set_fits v6 (set_id H224 src)). unfold limit_chain_nft. lia.
+    - apply nflog_fits in G. exact G.
+    - apply nflog_fits in G. exact G.
+    - inversion G. apply veth_fits.
+    - eapply vm_handle_fits; eauto.
   Qed.
 
-  Lemma model_pair_ok : ~ strong_collision H256 H224 H3 -> forall a b, ok_pair (model_obs a) (model_obs b) = true.
+  Lemma model_pair_ok : ~ strong_collision H256 H224 H3 H1 -> forall a b, ok_pair (model_obs a) (model_obs b) = true.
   Proof.
     intros NC a b. unfold ok_pair, model_obs. simpl.
     destruct (must_differ a b) eqn:M; [|reflexivity].
@@ -330,7 +402,7 @@ Section Oracle.
 
   (* every list of identities for which the model returns names is accepted by the oracle,
      unless two different texts have the same truncated digest *)
-  Theorem oracle_accepts_model : ~ strong_collision H256 H224 H3 -> forall l,
+  Theorem oracle_accepts_model : ~ strong_collision H256 H224 H3 H1 -> forall l,
     (forall i, In i l -> name i <> None) -> ok_case_obs (map model_obs l) = true.
   Proof.
     intros NC l T. unfold ok_case_obs. apply andb_true_iff. split; [apply andb_true_iff; split|].
